@@ -114,7 +114,7 @@ var TemplateNames = []string{
 	"leading-lookahead", "bumpalong-loop", "loop-then-x", "loop-ending-loop-body", "alt-shared-prefix",
 	"alt-shared-set-prefix", "atomic-alternation", "nested-atomic", "lookbehind-loop", "conditional-loop",
 	"wide-literal", "negated-first-set", "counted-group-loop", "lazy-loop-then-x", "alt-with-empty",
-	"start-anchor-G", "backref-after-loop", "lookaround-conditional", "alt-counted-set-prefix", "loop-then-optional-group", "group-loop-overlapping-head", "long-literal", "lookbehind-group-loop", "landmark-overlap", "lazy-group-loop", "capture-loop-backref", "long-counted-set", "balancing-pop", "balancing-pop-mirrored", "landmark-alternation", "alt-shared-lead-byte", "counted-literal-group", "optional-overlapping-set-loop", "threshold-count", "case-like-punctuation-set",
+	"start-anchor-G", "backref-after-loop", "lookaround-conditional", "alt-counted-set-prefix", "loop-then-optional-group", "group-loop-overlapping-head", "long-literal", "lookbehind-group-loop", "landmark-overlap", "lazy-group-loop", "capture-loop-backref", "long-counted-set", "balancing-pop", "balancing-pop-mirrored", "landmark-alternation", "alt-shared-lead-byte", "counted-literal-group", "optional-overlapping-set-loop", "threshold-count", "case-like-punctuation-set", "nested-mixed-laziness",
 }
 
 // Template builds template number k with random leaves.
@@ -448,6 +448,21 @@ func (t *T) Template(k int) *Node {
 			return Cat(&Node{K: KOptGroup, On: "i", Kids: []*Node{n}})
 		}
 		return n
+	case "nested-mixed-laziness":
+		// a single-character repeater of one laziness directly inside a group repeater of the other:
+		// the engine must not multiply them ((?:a+?)+ is not a+?)
+		inner := []*Node{Rep(t.unit(), 1, -1), Rep(t.unit(), 1, 2), Rep(t.unit(), 1, 3), Rep(t.unit(), 2, 5)}[t.R.Intn(4)]
+		oq := [][2]int{{1, -1}, {1, 2}, {2, -1}, {0, -1}, {1, 3}}[t.R.Intn(5)]
+		outer := Rep(NC(inner), oq[0], oq[1])
+		if t.R.Intn(2) == 0 {
+			inner.Lazy = true
+		} else {
+			outer.Lazy = true
+		}
+		if t.R.Intn(2) == 0 {
+			return Cat(outer, t.Cap(Rep(t.unit(), 0, -1)), t.tail())
+		}
+		return Cat(t.tail(), outer, t.tail())
 	case "balancing-pop-mirrored":
 		// the mirror image of balancing-pop: read right to left the pushes come first, so the cancelled
 		// capture lies to the right of the balancing group (left to right the pop finds nothing to pop)
